@@ -3,6 +3,7 @@ package charset
 import (
 	"bytes"
 	"encoding/xml"
+	"io"
 	"strings"
 	"unicode/utf8"
 
@@ -148,6 +149,11 @@ func FromXML(content []byte) string {
 func fromXML(content []byte) string {
 	content = trimLWS(content)
 	dec := xml.NewDecoder(bytes.NewReader(content))
+	// Without a CharsetReader the decoder refuses any declaration whose
+	// encoding is not UTF-8. Only the label is needed here, not a conversion.
+	dec.CharsetReader = func(label string, input io.Reader) (io.Reader, error) {
+		return input, nil
+	}
 	rawT, err := dec.RawToken()
 	if err != nil {
 		return ""
